@@ -171,3 +171,14 @@ Proof.
   split; [apply normal64_sub; vm_compute; reflexivity|].
   split; apply safe64_sound; vm_compute; reflexivity.
 Qed.
+
+(* ---- the model's change_base IS the source (Gen/ConvSrc.v is regenerated from src/system.rs on every run):
+   right coefficient in the numerator, left in the denominator, skipped when they are equal ---- *)
+From UomV Require Import Model.ConvSrc Gen.ConvSrc Spec.ConvTie.
+Theorem c06_change_base_is_the_source :
+  rebase_shape_ok src_change_base = true
+  /\ forall (T : Type) (F : CF T) Ul Ur d v,
+       fold_left (fun acc p => match acc with Some x => eval_rebase_step F src_change_base x p | None => None end)
+                 (combine (combine Ul Ur) d) (Some v)
+       = Some (change_base F Ul Ur d v).
+Proof. exact change_base_is_the_source. Qed.
